@@ -35,7 +35,11 @@ var stackDecoders = func() []func(tlb.VmStack) (string, any, error) {
 	return out
 }()
 
-func goABIStack(a []string) (res string) {
+func goABIStack(a []string) string {
+	return retrySlow(func() string { return goABIStackOnce(a) })
+}
+
+func goABIStackOnce(a []string) (res string) {
 	tab := h.ParseTable(a[0])
 	cells := h.BuildCells(tab)
 	ncells, size := unfolded(tab)
